@@ -52,6 +52,9 @@ rv('T1', r'ConvertLineProgram::<\'a, R>::read_sequence\|', 'invariant',
 rv('T1', r'ConvertUnitSection::<\'a, R>::read_unit\|', 'invariant',
    INV + 'self.read_unit_index is incremented before any fallible step and iteration stops when it reaches read_units.len()')
 
+rv('T1', r"(ConvertUnit|FilterUnit)::<'a, R>::read_entry\|err\|\?read_entry", 'invariant',
+   INV + 'reached only after `is_empty()` returned false, and EntriesRaw::read_entry starts with read_uleb128, which consumes at least one byte of a non-empty reader even when it '
+   'fails (confirmed by findings/demo/tests/convert_read_entry_spins.rs: the error-skipping loop ends for all 65536 truncations tried)')
 # ---- T3 -----------------------------------------------------------------------------------
 rv('T3', r'^read::dwarf::Dwarf::<T>::borrow <-> ', 'invariant',
    INV + 'recursion follows the `sup` chain of Arc<Dwarf> objects that the caller linked with set_sup; its depth is the number of files, not input bytes')
@@ -195,32 +198,31 @@ rv('P', r'^write::line::LineProgram::(add_file|add_directory) \| panic\(assert\)
 rv('P', r'^write::line::LineProgram::begin_sequence \| panic\(assert\)', 'contract', CONTRACT + 'rustdoc "Panics if a sequence has already begun"; ConvertLineProgram::convert never calls it (it uses set_address), the wrapper ConvertLineProgram::begin_sequence hands the contract to its caller')
 rv('P', r'^write::line::LineProgram::generate_row \| panic\(debug_assert\) \| when \(self.line_encoding.line_base Le 0\)', 'validator', 'LineProgram::new asserts line_base <= 0 (that assert being reachable from conversion is the known finding on LineProgram::new)')
 rv('P', r'^write::line::LineProgram::generate_row \| (Overflow\(Add\)|panic\(debug_assert\)) \| .*line_base (Add|AddWithOverflow) ', 'validator', 'LineProgram::new asserts line_base + line_range > 0 evaluated the same way')
+rv('P', r'^write::line::LineProgram::new \| panic\(assert\) \| when \(line_encoding.line_base Le 0\)', 'validator',
+   'the converter returns Err(InvalidLineBase) for line_base > 0 before constructing the program (demo line_convert_asserts.rs: not reproducible)')
+rv('P', r'^write::line::LineProgram::add_directory \| panic\(assert\) \| when is_empty', 'invariant',
+   'asserted only for version <= 4, where an empty include_directories entry terminates the list and therefore never reaches add_directory (demo: not reproducible)')
 # ---- known findings ------------------------------------------------------------------------
 kf('T2', r'^read::aranges::ArangeEntryIter::<R>::next\|\?convert_raw', ['C01'],
    'ArangeEntryIter::next is documented as fused but an AddressOverflow from convert_raw leaves the input untouched, so a later call yields the next tuple '
    '(input: tuple with begin+length overflowing the address size, followed by a valid tuple). The unit tests test_parse_entry_overflow_32/64 pin this behaviour, so it cannot be repaired without editing them',
    'findings/demo/tests/aranges_not_fused.rs')
-kf('T1', r"(ConvertUnit|FilterUnit)::<'a, R>::read_entry\|err\|\?read_entry", ['C01'],
-   'FilterUnit::read_entry / ConvertUnit::read_entry return the same Err on every call when an attribute is truncated (the raw reader is not emptied and nothing is consumed '
-   'when a fixed-size read fails), so a caller that skips errors never reaches the end', 'findings/demo/tests/convert_read_entry_spins.rs')
 kf('T3', r'^write::op::convert::<impl write::op::Expression>::from$', ['C01', 'C12'],
    'Expression::from recurses once per nested DW_OP_entry_value / DW_OP_GNU_entry_value, so the recursion depth is chosen by the input (2 bytes per level); '
    'a few ten thousand levels overflow the stack during conversion', 'findings/demo/tests/expr_from_recursion.rs')
 kf('P', r'^write::cfi::convert::<impl write::cfi::CallFrameInstruction>::from \| Overflow', ['C01', 'C12'],
    'write::cfi conversion multiplies/adds factored offsets, deltas and alignment factors from the input without overflow checks (source comment: "TODO: validate integer type conversions"); '
    'e.g. DW_CFA_def_cfa_offset_sf with a large factored offset and data_alignment_factor -8 panics with overflow checks on', 'findings/demo/tests/cfi_convert_overflow.rs')
-kf('P', r'^write::line::LineProgram::new \|', ['C01', 'C12'],
-   'converting a line program whose header has line_base > 0 or line_base + line_range <= 0 (as i8) hits the assert!s of write::LineProgram::new instead of returning an error',
+kf('P', r'^write::line::LineProgram::new \| (Overflow\(Add\)|panic\(assert\) \| when \(\(line_encoding.line_base AddWithOverflow)', ['C01', 'C12'],
+   'converting a line program whose header has line_base + line_range (as i8) <= 0 or overflowing i8 (e.g. line_base -5 / line_range 200, or -128 / 255) hits the assert! / the overflow check '
+   'in write::LineProgram::new instead of returning an error', 'findings/demo/tests/line_convert_asserts.rs')
+kf('P', r'^write::line::LineProgram::add_file \| panic\(assert\) \| when is_empty', ['C01', 'C12'],
+   'converting a DWARF <= 4 line program with a DW_LNE_define_file whose name is empty hits assert!(!val.is_empty()) in write::LineProgram::add_file',
    'findings/demo/tests/line_convert_asserts.rs')
-kf('P', r'^write::line::LineProgram::(add_file|add_directory) \| panic\(assert\) \| when is_empty', ['C01', 'C12'],
-   'converting a line program with an empty file or directory name hits assert!(!val.is_empty()) in write::LineProgram::add_file/add_directory',
-   'findings/demo/tests/line_convert_asserts.rs')
-
-
 kf('P', r'^write::line::LineProgram::(generate_row|op_advance) \|', ['C01', 'C12'],
    'write::LineProgram::op_advance / generate_row do unchecked arithmetic on address offsets, operation indices, line deltas and the line encoding taken from the converted program '
-   '(address_advance * maximum_operations_per_instruction, op_advance * line_range, % minimum_instruction_length); reached from ConvertLineProgram::convert with values chosen by the input',
-   'findings/demo/tests/line_convert_op_advance.rs')
+   '(address_advance * maximum_operations_per_instruction, op_advance * line_range, ...); reached from ConvertLineProgram::convert with values chosen by the input, e.g. two '
+   'DW_LNS_advance_pc of u64::MAX with maximum_operations_per_instruction 255', 'findings/demo/tests/line_convert_op_advance.rs')
 
 
 def main():
